@@ -43,12 +43,17 @@ inductive POp
   | joinParty (who : Nat)   -- wait for that party's thread
   | unlessServed            -- skip the rest of the script if a payload has been handed over
   | awaitWord (w : Nat)     -- spin until the word has that value (is_expecting_call / _accept)
+  | awaitAcceptor           -- spin until some acceptor is parked (is_expecting_call)
+  | onlyIfServed            -- skip the rest of the script unless the caller's payload has been handed over
+  | awaitServed             -- block until the caller's function has run
   deriving DecidableEq, Repr
 
 structure Config where
   present : List Bool        -- [caller present, acceptor present]
   stoppable : List Bool      -- [caller's receiver has a stop token, acceptor's …]
   scripts : List (List POp)  -- controller scripts, controller 0 = T0
+  gatedAcceptor : Bool := false  -- the acceptor calls async_accept only after the caller's function has run
+                                 -- (and not at all if the call was cancelled instead)
 
 /-- party pcs: 0 call, 1 register cb, 2 CAS loop, 3 rendezvous (first resume), 4 second resume,
     6 load sync_complete, 7 fetch_or(started), 8 stop(): CAS un-claim, 9 stop(): complete,
@@ -68,10 +73,12 @@ structure Party where
   outcome : Nat      -- history: 0 none, 1 value, 2 done
   got : Nat          -- history: payload delivered with the acceptor's set_value
   count : Nat        -- history: completions delivered
+  peer : Nat         -- caller: the acceptor it claimed
+  parked : Bool      -- history: stored itself in the word and has been neither claimed nor un-claimed since
   deriving DecidableEq, Repr
 
 /-- controller pcs: 0 idle; stop: 1 request, 2 callback fetch_or, 3 CAS un-claim, 4 complete, 5 return;
-    try_call: 6 claim, 7 hand over + resume, 8 return;  try_accept: 9 claim, 10 hand over + resume, 11 return -/
+    try_call: 6 claim, 7 hand over + resume, 8 return;  try_accept: 9 claim, 10 the caller's function runs, 12 caller->resume_, 11 return -/
 structure Ct where
   ip : Nat
   pc : Nat
@@ -80,8 +87,8 @@ structure Ct where
   deriving DecidableEq, Repr
 
 structure St where
-  word : Nat           -- 0 idle, 1 caller waiting, 2 acceptor waiting
-  ps : List Party      -- [caller, acceptor]
+  word : Nat           -- 0 idle, k+1: party k is parked (1 caller, 2 acceptor, 3 second acceptor)
+  ps : List Party      -- [caller, acceptor] or [caller, acceptor, second acceptor]
   cs : List Ct
   transferred : Bool   -- history: the caller's function was invoked (its payload, 1, was handed over)
   immediate : Nat      -- history: payload received by a try_accept
@@ -89,11 +96,11 @@ structure St where
                        -- request, 4 caller's payload handed over twice
   deriving DecidableEq, Repr
 
-def Party.init : Party := ⟨0, false, false, false, false, false, false, false, 0, false, 0, 0, 0, 0⟩
+def Party.init : Party := ⟨0, false, false, false, false, false, false, false, 0, false, 0, 0, 0, 0, 0, false⟩
 def Ct.init : Ct := ⟨0, 0, 0, false⟩
 
 def init (cfg : Config) : St :=
-  { word := 0, ps := [Party.init, Party.init], cs := cfg.scripts.map (fun _ => Ct.init),
+  { word := 0, ps := cfg.present.map (fun _ => Party.init), cs := cfg.scripts.map (fun _ => Ct.init),
     transferred := false, immediate := 0, bad := 0 }
 
 abbrev Lbl := Nat × Option String
@@ -104,9 +111,9 @@ def getP (s : St) (k : Nat) : Party := s.ps.getD k Party.init
 def setP (s : St) (k : Nat) (p : Party) : St := { s with ps := s.ps.set k p }
 def getT (s : St) (j : Nat) : Ct := s.cs.getD j Ct.init
 def setT (s : St) (j : Nat) (c : Ct) : St := { s with cs := s.cs.set j c }
-def ctlTid (j : Nat) : Nat := if j = 0 then 0 else 2 + j
+def ctlTid (s : St) (j : Nat) : Nat := if j = 0 then 0 else s.ps.length + j
 def flag (s : St) (b : Nat) : St := if s.bad = 0 then { s with bad := b } else s
-def nm (who : Nat) : String := if who = 0 then "call" else "accept"
+def nm (who : Nat) : String := if who = 0 then "call" else if who = 1 then "accept" else "accept2"
 
 def canDestroyCb (p : Party) (t : Nat) : Bool := p.cbRun = 0 || p.cbRun = t + 1
 
@@ -116,11 +123,14 @@ def resume (s : St) (who : Nat) : St :=
   let p := getP s who
   setP s who { p with completed := true, sync := p.sync || !p.started, cbReg := false, sched := true }
 
-/-- the caller's function runs: its payload goes into the acceptor's deferred completion -/
-def handOver (s : St) : St :=
+/-- the caller's function runs: its payload goes into acceptor `a`'s deferred completion -/
+def handOver (s : St) (a : Nat) : St :=
   let s1 := if s.transferred then flag s 4 else s
-  let a := getP s1 1
-  setP { s1 with transferred := true } 1 { a with payload := 1 }
+  let pa := getP s1 a
+  setP { s1 with transferred := true } a { pa with payload := 1 }
+
+/-- the counterpart's claim CAS took party `k` out of the word -/
+def unpark (s : St) (k : Nat) : St := setP s k { getP s k with parked := false }
 
 def partyDone (cfg : Config) (s : St) (who : Nat) : Bool :=
   !(cfg.present.getD who false) || (getP s who).pc == 12
@@ -129,28 +139,38 @@ def othersDone (cfg : Config) (s : St) (j : Nat) : Bool :=
   (List.range s.cs.length).all (fun u =>
     u = j || ((getT s u).pc == 0 && decide ((cfg.scripts.getD u []).length ≤ (getT s u).ip)))
 
-/-- One step of party `who` (0 caller on T1, 1 acceptor on T2). -/
+/-- One step of party `who` (0 caller on T1, 1 acceptor on T2, 2 second acceptor on T3).  The second
+    acceptor calls async_accept only after the caller's function has run (two acceptors parked at
+    the same time are `std::terminate()`); if the call was cancelled instead it does not start. -/
 def stepP (cfg : Config) (s : St) (who : Nat) : Option (Lbl × St) :=
   if !(cfg.present.getD who false) then none else
   let p := getP s who
   let t := who + 1
   let stp := cfg.stoppable.getD who false
   let self := who + 1          -- value of the word when this party waits
-  let other := 2 - who         -- value of the word when the counterpart waits
+  -- does the word hold a waiting counterpart?
+  let claimable := if who = 0 then decide (2 ≤ s.word) else decide (s.word = 1)
   match p.pc with
-  | 0 => some (ev t s!"{nm who}.begin", setP s who { p with pc := if stp then 1 else 2 })
+  | 0 =>
+    if (who = 2 || (who = 1 && cfg.gatedAcceptor)) && !s.transferred then
+      if (getP s 0).pc == 12 then some (tau t, setP s who { p with pc := 12 })   -- call cancelled: do not start
+      else none
+    else some (ev t s!"{nm who}.begin", setP s who { p with pc := if stp then 1 else 2 })
   | 1 =>
     if p.stopReq then some (tau t, setP s who { p with pc := 2, stopped := true })
     else some (tau t, setP s who { p with pc := 2, cbReg := true })
   | 2 =>  -- call_or_suspend / accept_or_suspend
-    if s.word = other then some (tau t, setP { s with word := 0 } who { p with pc := 3 })
-    else if s.word = 0 then some (tau t, setP { s with word := self } who { p with pc := if stp then 6 else 10 })
-    else none
+    if claimable then
+      some (tau t, setP (unpark { s with word := 0 } (s.word - 1)) who { p with pc := 3, peer := s.word - 1 })
+    else if s.word = 0 then
+      some (tau t, setP { s with word := self } who { p with pc := if stp then 6 else 10, parked := true })
+    else none   -- a second caller / acceptor while one waits: std::terminate()
   | 3 =>
     -- the caller's function is invoked with the acceptor; then the first resume:
     -- caller active → acceptor->unlocked_complete_;  acceptor active → its own try_complete
-    if canDestroyCb (getP s 1) t then
-      some (tau t, setP (resume (handOver s) 1) who { getP (resume (handOver s) 1) who with pc := 4 })
+    let a := if who = 0 then p.peer else who
+    if canDestroyCb (getP s a) t then
+      some (tau t, setP (resume (handOver s a) a) who { getP (resume (handOver s a) a) who with pc := 4 })
     else none
   | 4 =>  -- second resume: always the caller (its own resume_ / caller->resume_)
     if canDestroyCb (getP s 0) t then
@@ -161,7 +181,7 @@ def stepP (cfg : Config) (s : St) (who : Nat) : Option (Lbl × St) :=
     if p.stopped && !p.completed then some (tau t, setP s who { p with pc := 8, started := true })
     else some (tau t, setP s who { p with pc := 10, started := true })
   | 8 =>  -- stop(): CAS(word: self → 0)
-    if s.word = self then some (tau t, setP { s with word := 0 } who { p with pc := 9 })
+    if s.word = self then some (tau t, setP { s with word := 0 } who { p with pc := 9, parked := false })
     else some (tau t, setP s who { p with pc := 10 })
   | 9 =>
     if canDestroyCb p t then
@@ -175,18 +195,18 @@ def stepP (cfg : Config) (s : St) (who : Nat) : Option (Lbl × St) :=
       let isDone := p.cancelled
       let s1 := if p.count ≥ 1 then flag s 1 else s
       let s2 := if isDone && !p.stopReq then flag s1 3 else s1
-      let s3 := if !isDone && who = 1 && p.payload = 0 then flag s2 2 else s2
+      let s3 := if !isDone && who ≠ 0 && p.payload = 0 then flag s2 2 else s2
       let p' := { getP s3 who with pc := 12, sched := false, outcome := if isDone then 2 else 1,
                                     got := if isDone then 0 else p.payload, count := p.count + 1 }
       some (ev t (if isDone then s!"{nm who}.done"
-                  else if who = 0 then "call.value" else s!"accept.value {p.payload}"), setP s3 who p')
+                  else if who = 0 then "call.value" else s!"{nm who}.value {p.payload}"), setP s3 who p')
     else none
   | _ => none
 
 /-- One step of controller `j`. -/
 def stepC (cfg : Config) (s : St) (j : Nat) : Option (Lbl × St) :=
   let c := getT s j
-  let t := ctlTid j
+  let t := ctlTid s j
   match c.pc with
   | 0 =>
     match (cfg.scripts.getD j [])[c.ip]? with
@@ -197,9 +217,14 @@ def stepC (cfg : Config) (s : St) (j : Nat) : Option (Lbl × St) :=
     | some .joinCtl => if othersDone cfg s j then some (tau t, setT s j { c with ip := c.ip + 1 }) else none
     | some (.joinParty who) => if partyDone cfg s who then some (tau t, setT s j { c with ip := c.ip + 1 }) else none
     | some .unlessServed =>
-      if s.transferred || (getP s 1).payload != 0 then some (tau t, setT s j { c with ip := (cfg.scripts.getD j []).length })
+      if s.transferred || s.ps.any (fun q => q.payload != 0) then some (tau t, setT s j { c with ip := (cfg.scripts.getD j []).length })
       else some (tau t, setT s j { c with ip := c.ip + 1 })
     | some (.awaitWord w) => if s.word = w then some (tau t, setT s j { c with ip := c.ip + 1 }) else none
+    | some .onlyIfServed =>
+      if s.transferred then some (tau t, setT s j { c with ip := c.ip + 1 })
+      else some (tau t, setT s j { c with ip := (cfg.scripts.getD j []).length })
+    | some .awaitServed => if s.transferred then some (tau t, setT s j { c with ip := c.ip + 1 }) else none
+    | some .awaitAcceptor => if 2 ≤ s.word then some (tau t, setT s j { c with ip := c.ip + 1 }) else none
   | 1 =>  -- request_stop()
     let p := getP s c.who
     if p.cbReg then some (tau t, setT (setP s c.who { p with stopReq := true, cbRun := t + 1 }) j { c with pc := 2 })
@@ -210,7 +235,7 @@ def stepC (cfg : Config) (s : St) (j : Nat) : Option (Lbl × St) :=
     if p.started && !p.stopped && !p.completed then some (tau t, setT s1 j { c with pc := 3 })
     else some (tau t, setT s1 j { c with pc := 5 })
   | 3 =>  -- nested stop(): CAS(word: that party → 0)
-    if s.word = c.who + 1 then some (tau t, setT { s with word := 0 } j { c with pc := 4 })
+    if s.word = c.who + 1 then some (tau t, setT (unpark { s with word := 0 } c.who) j { c with pc := 4 })
     else some (tau t, setT s j { c with pc := 5 })
   | 4 =>
     let s1 := resume s c.who
@@ -219,33 +244,34 @@ def stepC (cfg : Config) (s : St) (j : Nat) : Option (Lbl × St) :=
     let p := getP s c.who
     some (ev t s!"stop{c.who}.end", setT (setP s c.who { p with cbRun := 0 }) j { c with pc := 0, ip := c.ip + 1 })
   | 6 =>  -- try_claim_acceptor
-    if s.word = 2 then some (tau t, setT { s with word := 0 } j { c with pc := 7, r := true })
+    if 2 ≤ s.word then some (tau t, setT (unpark { s with word := 0 } (s.word - 1)) j { c with pc := 7, r := true, who := s.word - 1 })
     else some (tau t, setT s j { c with pc := 8, r := false })
-  | 7 =>  -- the immediate call hands payload 2 to the acceptor; acceptor->unlocked_complete_
-    if canDestroyCb (getP s 1) t then
-      let a := getP s 1
-      some (tau t, setT (resume (setP s 1 { a with payload := 2 }) 1) j { c with pc := 8 })
+  | 7 =>  -- the immediate call hands payload 2 to the claimed acceptor; acceptor->unlocked_complete_
+    if canDestroyCb (getP s c.who) t then
+      let a := getP s c.who
+      some (tau t, setT (resume (setP s c.who { a with payload := 2 }) c.who) j { c with pc := 8 })
     else none
   | 8 => some (ev t (if c.r then "trycall.end 1" else "trycall.end 0"), setT s j { c with pc := 0, ip := c.ip + 1 })
   | 9 =>  -- try_claim_caller
-    if s.word = 1 then some (tau t, setT { s with word := 0 } j { c with pc := 10, r := true })
+    if s.word = 1 then some (tau t, setT (unpark { s with word := 0 } 0) j { c with pc := 10, r := true })
     else some (tau t, setT s j { c with pc := 11, r := false })
-  | 10 =>  -- the caller's function runs with the immediate acceptor; caller->resume_
-    if canDestroyCb (getP s 0) t then
-      let s1 := if s.transferred then flag s 4 else s
-      some (tau t, setT (resume { s1 with transferred := true, immediate := 1 } 0) j { c with pc := 11 })
+  | 10 =>  -- the caller's function runs with the immediate acceptor …
+    let s1 := if s.transferred then flag s 4 else s
+    some (tau t, setT { s1 with transferred := true, immediate := 1 } j { c with pc := 12 })
+  | 12 =>  -- … then (scope_guard) caller->resume_
+    if canDestroyCb (getP s 0) t then some (tau t, setT (resume s 0) j { c with pc := 11 })
     else none
   | 11 => some (ev t (if c.r then "tryaccept.end 1" else "tryaccept.end 0"), setT s j { c with pc := 0, ip := c.ip + 1 })
   | _ => none
 
 def sys (cfg : Config) : LSys St Lbl where
   init := init cfg
-  next s := (List.range 2).filterMap (stepP cfg s) ++ (List.range s.cs.length).filterMap (stepC cfg s)
+  next s := (List.range s.ps.length).filterMap (stepP cfg s) ++ (List.range s.cs.length).filterMap (stepC cfg s)
 
 def obsOf (l : Lbl) : Option String := l.2.map (fun txt => s!"T{l.1} {txt}")
 
 def final (cfg : Config) (s : St) : Bool :=
-  partyDone cfg s 0 && partyDone cfg s 1 &&
+  (List.range s.ps.length).all (partyDone cfg s) &&
   (List.range s.cs.length).all (fun j => (getT s j).pc == 0 && decide ((cfg.scripts.getD j []).length ≤ (getT s j).ip))
 
 /-- The property as a state predicate (the converse direction of `call_value_iff_accepted` is
@@ -258,50 +284,64 @@ def final (cfg : Config) (s : St) : Bool :=
     * the call completes with value ONLY IF its payload was handed over; an accept that completed
       with value got a payload that was really handed to it;
     * a call whose stop() won the un-claim CAS is never handed over (its arguments stay untouched),
-      an accept whose stop() won never receives a payload. -/
+      an accept whose stop() won never receives a payload;
+    * the slot is consistent (`slotOk`): a party that stored itself in the word and has been neither
+      claimed by a counterpart nor un-claimed by its own stop() IS the content of the word, and vice
+      versa — no waiter is ever wiped out of the slot, so `try_call`/`try_accept` succeed exactly when
+      a counterpart is waiting (`try_succeeds_iff_counterpart_waiting`,
+      `cancel_leaves_other_waiting`). -/
+def slotOk (s : St) : Bool :=
+  (List.range s.ps.length).all (fun k => (getP s k).parked == decide (s.word = k + 1)) &&
+  decide (s.word ≤ s.ps.length)
+
 def safe (cfg : Config) (s : St) : Bool :=
   s.bad == 0 &&
   (!((sys cfg).next s).isEmpty || final cfg s) &&
   (!final cfg s ||
     (((!cfg.present.getD 0 false) || (getP s 0).count == 1) &&
-     ((!cfg.present.getD 1 false) || (getP s 1).count == 1))) &&
+     ((!cfg.present.getD 1 false) || (getP s 1).count == 1 || (cfg.gatedAcceptor && !s.transferred)) &&
+     -- (the second acceptor does not start when the call was cancelled)
+     ((!cfg.present.getD 2 false) || (getP s 2).count == 1 || !s.transferred))) &&
   ((getP s 0).outcome != 1 || s.transferred) &&
   ((getP s 1).outcome != 1 || ((getP s 1).got != 0 && ((getP s 1).got != 1 || s.transferred))) &&
   (!(getP s 0).cancelled || !s.transferred) &&
-  (!(getP s 1).cancelled || (getP s 1).payload == 0)
+  (!(getP s 1).cancelled || (getP s 1).payload == 0) &&
+  ((getP s 2).outcome != 1 || ((getP s 2).got != 0 && ((getP s 2).got != 1 || s.transferred))) &&
+  slotOk s
 
 /-- `call_value_iff_accepted`, the converse direction (the one the pre-b17d5ba forwarder violated): a
     call whose payload was handed over does not complete with done, and an accept that was handed a
     payload does not complete with done. -/
 def faithful (s : St) : Bool :=
   (!(s.transferred && (getP s 0).outcome == 2)) &&
-  (!((getP s 1).payload != 0 && (getP s 1).outcome == 2))
+  (!((getP s 1).payload != 0 && (getP s 1).outcome == 2)) &&
+  (!((getP s 2).payload != 0 && (getP s 2).outcome == 2))
 
 /-! ### coding (fixed layout, see Proto/Code16.lean) -/
 open Code16
 
-/-- 14 digits -/
+/-- 16 digits -/
 def encParty (p : Party) : Nat :=
   dcons p.pc (dcons (b2n p.stopped) (dcons (b2n p.started) (dcons (b2n p.completed) (dcons (b2n p.sync)
     (dcons (b2n p.sched) (dcons (b2n p.stopReq) (dcons (b2n p.cbReg) (dcons p.cbRun (dcons (b2n p.cancelled)
-      (dcons p.payload (dcons p.outcome (dcons p.got (dcons p.count 0)))))))))))))
+      (dcons p.payload (dcons p.outcome (dcons p.got (dcons p.count (dcons p.peer (dcons (b2n p.parked) 0)))))))))))))))
 def decParty (n o : Nat) : Party :=
   ⟨dig n o, dig n (o+1) == 1, dig n (o+2) == 1, dig n (o+3) == 1, dig n (o+4) == 1, dig n (o+5) == 1,
    dig n (o+6) == 1, dig n (o+7) == 1, dig n (o+8), dig n (o+9) == 1, dig n (o+10), dig n (o+11),
-   dig n (o+12), dig n (o+13)⟩
+   dig n (o+12), dig n (o+13), dig n (o+14), dig n (o+15) == 1⟩
 
 /-- 4 digits -/
 def encCt (c : Ct) : Nat := dcons c.ip (dcons c.pc (dcons c.who (dcons (b2n c.r) 0)))
 def decCt (n o : Nat) : Ct := ⟨dig n o, dig n (o+1), dig n (o+2), dig n (o+3) == 1⟩
 
-/-- layout: nP, nC, word, transferred, immediate, bad, parties (14 each), controllers (4 each), terminator -/
+/-- layout: nP, nC, word, transferred, immediate, bad, parties (16 each), controllers (4 each), terminator -/
 def encSt (s : St) : Nat :=
   dcons s.ps.length (dcons s.cs.length (dcons s.word (dcons (b2n s.transferred) (dcons s.immediate (dcons s.bad
-    (packW 14 encParty s.ps + 16 ^ (14 * s.ps.length) * (packW 4 encCt s.cs + 16 ^ (4 * s.cs.length))))))))
+    (packW 16 encParty s.ps + 16 ^ (16 * s.ps.length) * (packW 4 encCt s.cs + 16 ^ (4 * s.cs.length))))))))
 
 def decSt (n : Nat) : St :=
-  { word := dig n 2, ps := (List.range (dig n 0)).map (fun i => decParty n (6 + 14 * i)),
-    cs := (List.range (dig n 1)).map (fun j => decCt n (6 + 14 * dig n 0 + 4 * j)),
+  { word := dig n 2, ps := (List.range (dig n 0)).map (fun i => decParty n (6 + 16 * i)),
+    cs := (List.range (dig n 1)).map (fun j => decCt n (6 + 16 * dig n 0 + 4 * j)),
     transferred := dig n 3 == 1, immediate := dig n 4, bad := dig n 5 }
 
 def coded : Coded St := { enc := encSt, dec := decSt, M := 1021, W := 192 }
@@ -327,9 +367,23 @@ def cfgTryAccept : Config :=
   { present := [true, false], stoppable := [false, false],
     scripts := [[.joinCtl, .unlessServed, .awaitWord 1, .tryAccept], [.tryAccept]] }
 
+/-- a late stop request for a call that has ALREADY been claimed, while another waiter parks in the
+    slot: T3 waits until the (cancellable) call is parked and claims it with try_accept; as soon as
+    the caller's function has run, the acceptor (T2) parks in the now idle slot AND T4 requests stop
+    for the call, both racing with the rest of the rendezvous (caller->resume_).  The call's stop()
+    must leave the slot alone (its CAS expects itself): T0's try_call must find the acceptor. -/
+def cfgLateStop : Config :=
+  { present := [true, true], stoppable := [true, false], gatedAcceptor := true,
+    scripts := [[.joinCtl, .joinParty 0, .awaitWord 2, .tryCall], [.awaitWord 1, .tryAccept], [.awaitServed, .stop 0]] }
+/-- the same with two asynchronous acceptors (first one claims, second one parks): 2378 states, too
+    large for a kernel-evaluated instance; not registered, kept as documentation of the generality -/
+def cfgLateStop3 : Config :=
+  { present := [true, true, true], stoppable := [true, false, false],
+    scripts := [[.joinCtl, .joinParty 0, .awaitAcceptor, .tryCall], [.stop 0]] }
+
 def configs : List (String × Config) :=
   [("pass_rendezvous", cfgRendezvous), ("pass_cancel_call", cfgCancelCall), ("pass_cancel_accept", cfgCancelAccept),
    ("pass_cancel_call_plain", cfgCancelCall),   -- same protocol, C++ scheduler ignores stop tokens
-   ("pass_try_call", cfgTryCall), ("pass_try_accept", cfgTryAccept)]
+   ("pass_try_call", cfgTryCall), ("pass_try_accept", cfgTryAccept), ("pass_late_stop", cfgLateStop)]
 
 end Unifex.Proto.AsyncPass
